@@ -261,8 +261,9 @@ func (t *Dense) TensorMul(other Tensor, axesA, axesB []int) (retVal *Dense, err 
 
 	newAxesA := BorrowInts(len(notins) + len(axesA))
 	defer ReturnInts(newAxesA)
-	newAxesA = newAxesA[:0]
-	newAxesA = append(notins, axesA...)
+	// build the pattern in the borrowed slice: appending to notins would alias it (notins is reused for other below)
+	newAxesA = append(newAxesA[:0], notins...)
+	newAxesA = append(newAxesA, axesA...)
 	n2 := 1
 	for _, a := range axesA {
 		n2 *= ts[a]
@@ -297,8 +298,9 @@ func (t *Dense) TensorMul(other Tensor, axesA, axesB []int) (retVal *Dense, err 
 
 	newAxesB := BorrowInts(len(notins) + len(axesB))
 	defer ReturnInts(newAxesB)
-	newAxesB = newAxesB[:0]
-	newAxesB = append(axesB, notins...)
+	// likewise: never append to the caller's axesB
+	newAxesB = append(newAxesB[:0], axesB...)
+	newAxesB = append(newAxesB, notins...)
 
 	newShapeO := Shape(BorrowInts(2))
 	defer ReturnInts(newShapeO)
